@@ -42,67 +42,69 @@ Definition c03_cfg : config :=
      startup_may_fire := false; shutdown_may_fire := false |}.
 Example C03_ex_schedule :
   exists s, run (step c03_cfg) (init c03_cfg)
-              [LLaunch 0; LRunCall 0; LPoll 0 false; LPoll 0 true; LGateDecide 0; LLaunch 1; LRunCall 1] = Some s
-            /\ obs_trace obs [LLaunch 0; LRunCall 0; LPoll 0 false; LPoll 0 true; LGateDecide 0; LLaunch 1; LRunCall 1]
+              [LLaunch 0; LRunStore 0; LRunCall 0; LPoll 0 false; LPoll 0 true; LGateDecide 0; LLaunch 1; LRunCall 1] = Some s
+            /\ obs_trace obs [LLaunch 0; LRunStore 0; LRunCall 0; LPoll 0 false; LPoll 0 true; LGateDecide 0; LLaunch 1; LRunCall 1]
                = [ERunCall 0; EPoll 0 false; EPoll 0 true; ERunCall 1].
 Proof. eexists. split; vm_compute; reflexivity. Qed.
 (* ... and the monitor rejects a trace in which the second Run starts before readiness *)
 Example C03_ex_rejects : c03_gate c03_cfg [ERunCall 0; EPoll 0 false; ERunCall 1] = false.
 Proof. vm_compute. reflexivity. Qed.
 
-(* ---- the "pending error" clause (fix 8eb6141) ---- *)
+(* ---- the "pending error" clause (fix 8eb6141 and the pending-on-cancel repair) ---- *)
 
-(* The monitor c03_pending ("after a real error was returned and the system was then observed
-   quiescent, no runnable is started") is FALSE of the model: SupPending.pend_sched - the parent
-   context is cancelled while the failure is queued, the readiness wait takes ctx.Done. *)
-Theorem C03_pending_refuted :
-  exists c ls s, run (step c) (init c) ls = Some s /\ c03_pending c (obs_trace obs ls) = false.
-Proof. exact c03_pending_refuted. Qed.
+(* On EVERY schedule: once a runnable's Run has returned a real error and the system has then been
+   observed quiescent (so the failure is queued or already taken by Run()), no runnable's Run is
+   ever invoked again - whether or not the supervisor's context is cancelled meanwhile. *)
+Theorem C03_pending : forall c ls s,
+  run (step c) (init c) ls = Some s -> c03_pending c (obs_trace obs ls) = true.
+Proof. exact sup_c03_pending. Qed.
 
-(* With the exception C03 itself makes (the trace shows the supervisor's context was cancelled) it
-   holds on every schedule. *)
-Theorem C03_pending_nc : forall c ls s,
-  run (step c) (init c) ls = Some s -> c03_pending_nc c (obs_trace obs ls) = true.
-Proof. exact sup_c03_pending_nc. Qed.
-
-(* The gate itself: while a failure is queued and the context is not cancelled, no step of any
-   goroutine opens a readiness gate: Main stays at the gate with the failure still queued or fixes
-   its result (and then never starts anything: C03_abort), and no runnable is started. *)
+(* The gate itself: while a failure is queued, no step of any goroutine - not even Main leaving its
+   readiness wait because the context was cancelled - opens a readiness gate: Main stays at the gate
+   with the failure still queued or fixes its result (and then never starts anything: C03_abort),
+   and no runnable is started. *)
 Theorem C03_pending_gate : forall c s l s',
-  at_gate s -> errq s <> [] -> ctx_done s = false -> step c s l = Some s' ->
+  at_gate s -> errq s <> [] -> step c s l = Some s' ->
   ((at_gate s' /\ errq s' <> []) \/ decided s') /\ launched s' = launched s.
 Proof. exact sup_c03_pending_gate. Qed.
 
-(* A quiescent state after some runnable returned a real error: no goroutine is about to call Run,
+(* A quiescent state after some runnable returned a real error: no launched goroutine is still on its
+   way to call Run (waiting p := p = RnLaunched \/ p = RnStored),
    and Main has fixed its result or is inside a slow IsRunning() call with the failure queued. *)
 Theorem C03_pending_quiescent : forall c s,
   0 < nrun c -> reachable_sup c s -> quiescent c s = true -> real_in (hist s) = true ->
-  (forall i, rn_at s i <> RnLaunched) /\ (decided s \/ (errq s <> [] /\ at_gate s)).
+  (forall i, ~ waiting (rn_at s i)) /\ (decided s \/ (errq s <> [] /\ at_gate s)).
 Proof. exact sup_c03_pending_quiescent. Qed.
 
-Print Assumptions C03_pending_refuted.
-Print Assumptions C03_pending_nc.
+Print Assumptions C03_pending.
 Print Assumptions C03_pending_gate.
 Print Assumptions C03_pending_quiescent.
 
 (* non-vacuity: runnable 0 became ready but failed before the gate looked: the gate does not open *)
 Definition c03_pend_sched : list label :=
-  [LLaunch 0; LRunCall 0; LMonSub 0; LMonRecv 0; LPollBegin 0; LRunRet 0 (Some (7, false)); LErrSend 0; LQuiet;
+  [LLaunch 0; LRunStore 0; LRunCall 0; LMonSub 0; LMonRecv 0; LPollBegin 0; LRunRet 0 (Some (7, false)); LErrSend 0; LQuiet;
    LPoll 0 true].
 Example C03_ex_pending_gate :
   exists s s', run (step pend_cfg) (init pend_cfg) c03_pend_sched = Some s /\
-               main s = MGateCheck 0 /\ errq s = [7] /\ ctx_done s = false /\
+               main s = MGateCheck 0 /\ errq s = [7] /\
                step pend_cfg s (LGateDecide 0) = Some s' /\ main s' = MExit (ResErr 7).
 Proof.
   eexists. eexists. split; [vm_compute; reflexivity|]. split; [vm_compute; reflexivity|].
-  split; [vm_compute; reflexivity|]. split; [vm_compute; reflexivity|]. split; vm_compute; reflexivity.
+  split; [vm_compute; reflexivity|]. split; vm_compute; reflexivity.
 Qed.
 Example C03_ex_pending_rejects :
-  c03_pending_nc pend_cfg [ERunCall 0; EPollBegin 0; ERunRet 0 (Some (7, false)); EQuiet; EPoll 0 true; ERunCall 1] = false.
+  c03_pending pend_cfg [ERunCall 0; EPollBegin 0; ERunRet 0 (Some (7, false)); EQuiet; EPoll 0 true; ERunCall 1] = false.
 Proof. vm_compute. reflexivity. Qed.
-(* the refuting schedule is accepted by the corrected monitor only because of EParentCancel *)
+(* the schedule that refuted the clause before the repair (parent cancelled while the failure is
+   queued, the readiness wait takes ctx.Done): the gate now returns the queued failure, runnable 1
+   cannot be launched, and Run() returns error 7; the trace the old code produced is rejected *)
 Example C03_ex_pending_cancelled :
-  obs_trace obs pend_sched =
-    [ERunCall 0; EPollBegin 0; ERunRet 0 (Some (7, false)); EQuiet; EParentCancel; EPoll 0 false; ERunCall 1]
-  /\ c03_pending_nc pend_cfg (obs_trace obs pend_sched) = true.
-Proof. split; vm_compute; reflexivity. Qed.
+  exists s1 s, run (step pend_cfg) (init pend_cfg) pend_prefix = Some s1 /\ main s1 = MExit (ResErr 7) /\
+               step pend_cfg s1 (LLaunch 1) = None /\
+               run (step pend_cfg) (init pend_cfg) pend_sched = Some s /\ main s = MReturned (ResErr 7) /\
+               launched s = 1.
+Proof. exact pend_sched_returns_error. Qed.
+Example C03_ex_pending_old_trace_rejected :
+  c03_pending pend_cfg
+    [ERunCall 0; EPollBegin 0; ERunRet 0 (Some (7, false)); EQuiet; EParentCancel; EPoll 0 false; ERunCall 1] = false.
+Proof. vm_compute. reflexivity. Qed.
